@@ -2,7 +2,7 @@
 import itertools
 
 PROP, NUM = 'C20', 20
-PROPS_FILES = ['Props/C20.v']
+PROPS_FILES = ['Props/C20.v', 'Props/C20_float.v']
 MODES = ['jit']            # pure numpy/Python code: the JIT switch does not reach it
 MODES_THOROUGH = ['jit', 'nojit']
 LEVEL = 'proof'
